@@ -73,17 +73,29 @@ def vkind(fn, ref_masks):
     """Identify a validator by behaviour, not by name."""
     import joserfc.registry as R
     clo = getattr(fn, "__closure__", None)
-    if clo and fn.__code__.co_freevars == ("choices",):
-        choices = clo[0].cell_contents
-        if not isinstance(choices, list):
-            raise TableError("in_choices closure is not a list")
-        ref = probe_mask(R.in_choices(list(choices)))
-        if probe_mask(fn) != ref:
-            raise TableError("choices validator behaves unexpectedly")
-        # the reference behaviour of in_choices itself, on a fixed list
-        if probe_mask(R.in_choices(["sig", "enc"])) != ref_masks["__choices_sig_enc"]:
-            return "(VUnknown %s)" % cN(probe_mask(R.in_choices(["sig", "enc"])))
-        return "(VChoices %s)" % clist(cstr(c) for c in choices)
+    fv = fn.__code__.co_freevars if hasattr(fn, "__code__") else ()
+    if clo and "choices" in fv:
+        cells = dict(zip(fv, (c.cell_contents for c in clo)))
+        if set(fv) - {"choices", "is_list"}:
+            raise TableError(f"in_choices closure has unknown free variables {fv}")
+        choices = cells["choices"]
+        is_list = cells.get("is_list", None)
+        if not isinstance(choices, list) or is_list not in (None, True, False):
+            raise TableError("in_choices closure is not (list, bool|None)")
+
+        # independent reference of the documented behaviour, on the same choices
+        def ref(v, c=list(choices), il=is_list):
+            if il is not None and isinstance(v, list) is not il:
+                raise ValueError
+            if isinstance(v, list):
+                if not all(x in c for x in v):
+                    raise ValueError
+            elif v not in c:
+                raise ValueError
+        if probe_mask(fn) != probe_mask(ref):
+            return "(VUnknown %s)" % cN(probe_mask(fn))
+        ctor = {None: "VChoices", False: "VChoiceStr", True: "VChoiceList"}[is_list]
+        return "(%s %s)" % (ctor, clist(cstr(c) for c in choices))
     m = probe_mask(fn)
     for name, rm in ref_masks.items():
         if name.startswith("__"):
